@@ -389,40 +389,52 @@ theorem exists_bound (l : List Nat) : ∃ N, ∀ x, x ∈ l → x < N := by
     · omega
     · have := h x hx; omega
 
-theorem trace_facts (p0 : Peer) (ops : List PeerOut.Op) :
+/-- The initial peer `p0` of a history is any peer whose request structure satisfies its
+    representation invariant `RInv` (queued and sent chunk numbers pairwise distinct, the
+    membership bitmap exactly their union) — in particular a new peer (`Requests.RInv_empty`),
+    and, by `trace_ok`, every state reachable from one. -/
+theorem trace_facts (p0 : Peer) (ops : List PeerOut.Op) (hinv : Requests.RInv p0.requests) :
     ∀ e, e ∈ trace p0 ops → e.pre.ps = p0.ps ∧ e.pre.length = p0.length ∧
+      Requests.RInv e.pre.requests ∧
       EmLocal (fun i => ∃ h, PeerOut.Op.eHave i h ∈ ops) e := by
-  obtain ⟨N, hN⟩ := exists_bound (p0.requests.queue.map (·.index) ++ ops.flatMap Op.chunks)
+  obtain ⟨N, hN⟩ := exists_bound (p0.requests.queue.map (·.index) ++
+    (p0.requests.requested.map (·.index) ++ ops.flatMap Op.chunks))
   intro e he
-  have := trace_ok (ps0 := p0.ps) (len0 := p0.length) (N := N) ops p0 ⟨rfl, rfl, ?_⟩ ?_ e he
-  · exact ⟨this.1.1, this.1.2.1, this.2⟩
+  have := trace_ok (ps0 := p0.ps) (len0 := p0.length) (N := N) ops p0
+    ⟨rfl, rfl, ?_, ?_, hinv⟩ ?_ e he
+  · exact ⟨this.1.1, this.1.2.1, this.1.2.2.2.2, this.2⟩
   · intro r hr
     exact hN _ (List.mem_append.2 (Or.inl (List.mem_map.2 ⟨r, hr, rfl⟩)))
+  · intro r hr
+    exact hN _ (List.mem_append.2 (Or.inr (List.mem_append.2 (Or.inl (List.mem_map.2 ⟨r, hr, rfl⟩)))))
   · intro op hop ch hch
-    exact hN _ (List.mem_append.2 (Or.inr (List.mem_flatMap.2 ⟨op, hop, hch⟩)))
+    exact hN _ (List.mem_append.2 (Or.inr (List.mem_append.2 (Or.inr
+      (List.mem_flatMap.2 ⟨op, hop, hch⟩)))))
 
-theorem local_facts (p0 : Peer) (ops : List PeerOut.Op) :
+theorem local_facts (p0 : Peer) (ops : List PeerOut.Op) (hinv : Requests.RInv p0.requests) :
     ∀ e, e ∈ trace p0 ops → EmLocal (fun i => ∃ h, PeerOut.Op.eHave i h ∈ ops) e :=
-  fun e he => (trace_facts p0 ops e he).2.2
+  fun e he => (trace_facts p0 ops hinv e he).2.2.2
 
 /-- **C11_request_allowed.**  Every `Request` is sent in a state in which the remote has
     unchoked us or has allowed-fast the piece. -/
-theorem C11_request_allowed (p0 : Peer) (ops : List PeerOut.Op) :
+theorem C11_request_allowed (p0 : Peer) (ops : List PeerOut.Op)
+    (hinv : Requests.RInv p0.requests) :
     ∀ e, e ∈ trace p0 ops → ∀ i b l, e.msg = .request i b l →
       e.pre.unchoked = true ∨ i ∈ e.pre.fast := by
   intro e he i b l hm
-  have := local_facts p0 ops e he
+  have := local_facts p0 ops hinv e he
   unfold EmLocal at this
   rw [hm] at this
   exact this.1
 
 /-- **C11_request_depth.**  A `Request` is sent only while fewer than `max 2 reqQ` requests
     are outstanding, `reqQ` being the depth the peer advertised (128 before it does). -/
-theorem C11_request_depth (p0 : Peer) (ops : List PeerOut.Op) :
+theorem C11_request_depth (p0 : Peer) (ops : List PeerOut.Op)
+    (hinv : Requests.RInv p0.requests) :
     ∀ e, e ∈ trace p0 ops → ∀ i b l, e.msg = .request i b l →
       e.pre.requests.requested.length < max 2 e.pre.reqQ := by
   intro e he i b l hm
-  have := local_facts p0 ops e he
+  have := local_facts p0 ops hinv e he
   unfold EmLocal at this
   rw [hm] at this
   exact this.2.2.1
@@ -432,7 +444,8 @@ theorem C11_request_depth (p0 : Peer) (ops : List PeerOut.Op) :
     piece that the remote has advertised, a 16 KiB-aligned offset inside that piece, and the
     block's exact length (shorter only for the final block of the torrent). -/
 theorem C11_request_wf (p0 : Peer) (ops : List PeerOut.Op) (hg : GeomOK p0.ps p0.length)
-    (hq : ∀ r, r ∈ p0.requests.queue → r.index < nChunks p0.length)
+    (hinv : Requests.RInv p0.requests)
+    (hq : ∀ r, r ∈ p0.requests.queue ++ p0.requests.requested → r.index < nChunks p0.length)
     (hops : ∀ op, op ∈ ops → ∀ ch, ch ∈ op.chunks → ch < nChunks p0.length) :
     ∀ e, e ∈ trace p0 ops → ∀ i b l, e.msg = .request i b l →
       i < numPiecesOf p0.ps p0.length ∧ e.pre.rbGet i = true ∧
@@ -440,11 +453,12 @@ theorem C11_request_wf (p0 : Peer) (ops : List PeerOut.Op) (hg : GeomOK p0.ps p0
       l = min 16384 (p0.length - (i * p0.ps.toNat + b)) := by
   intro e he i b l hm
   obtain ⟨hsi, hloc⟩ := trace_ok (ps0 := p0.ps) (len0 := p0.length) (N := nChunks p0.length)
-    ops p0 ⟨rfl, rfl, hq⟩ hops e he
+    ops p0 ⟨rfl, rfl, fun r hr => hq r (List.mem_append.2 (Or.inl hr)),
+      fun r hr => hq r (List.mem_append.2 (Or.inr hr)), hinv⟩ hops e he
   unfold EmLocal at hloc
   rw [hm] at hloc
   obtain ⟨_, hrb, _, q, rest, hqueue, iu, bu, hfc, hi, hb, hl⟩ := hloc
-  have hqn : q.index < nChunks p0.length := hsi.2.2 q (by rw [hqueue]; exact List.mem_cons_self)
+  have hqn : q.index < nChunks p0.length := hsi.2.2.1 q (by rw [hqueue]; exact List.mem_cons_self)
   obtain ⟨i', b', hf', hpos, hbm, hbl, hlt, hnum, hsz⟩ := chunk_wf hg hqn
   rw [hsi.1] at hfc
   rw [hsi.2.1] at hl
@@ -458,14 +472,15 @@ theorem C11_request_wf (p0 : Peer) (ops : List PeerOut.Op) (hg : GeomOK p0.ps p0
     request did) a request that is outstanding and for which no `Cancel` has been sent yet:
     it is marked cancelled by the very step that sends the `Cancel`, and a marked request
     never produces another one. -/
-theorem C11_cancel_refers (p0 : Peer) (ops : List PeerOut.Op) :
+theorem C11_cancel_refers (p0 : Peer) (ops : List PeerOut.Op)
+    (hinv : Requests.RInv p0.requests) :
     ∀ e, e ∈ trace p0 ops → ∀ i b l, e.msg = .cancel i b l →
       ∃ r, r ∈ e.pre.requests.requested ∧ r.cancelled = false ∧
         ∃ iu bu, fromChunk e.pre.ps (UInt32.ofNat r.index) = some (iu, bu) ∧
           i = iu.toNat ∧ b = bu.toNat ∧
           l = (chunkSize e.pre.length (UInt32.ofNat r.index)).toNat := by
   intro e he i b l hm
-  have := local_facts p0 ops e he
+  have := local_facts p0 ops hinv e he
   unfold EmLocal at this
   rw [hm] at this
   exact this
@@ -475,11 +490,11 @@ theorem C11_cancel_refers (p0 : Peer) (ops : List PeerOut.Op) :
     index sent is below the piece count.  Nothing but requests, cancels, haves, don't-haves,
     (not-)interested and PEX is ever emitted by these handlers. -/
 theorem C11_have_range (p0 : Peer) (ops : List PeerOut.Op) (n : Nat)
-    (hops : ∀ i h, PeerOut.Op.eHave i h ∈ ops → i < n) :
+    (hinv : Requests.RInv p0.requests) (hops : ∀ i h, PeerOut.Op.eHave i h ∈ ops → i < n) :
     ∀ e, e ∈ trace p0 ops →
       (∀ i, e.msg = .have i → i < n) ∧ (∀ s i, e.msg = .dontHave s i → i < n) := by
   intro e he
-  have := local_facts p0 ops e he
+  have := local_facts p0 ops hinv e he
   unfold EmLocal at this
   constructor
   · intro i hm
@@ -509,26 +524,29 @@ theorem fromChunk_inj {ps : UInt32} (h1 : 16384 ≤ ps.toNat) {c1 c2 : Nat} (hc1
   rw [hd, hm] at a1
   omega
 
-/-- **C11_request_no_dup** (partial: the representation invariant of `Requests` is a
-    hypothesis on the state the request is sent in; it is proved to be established by the
-    empty structure and kept by `Enqueue`, `Dequeue`, `EnqueueRequest` and `Clear(true)` in
-    `C11_requests_inv`, but not yet carried through `del`/`Cancel`/`Expire`/`Clear(false)`).
-    Under it, a `Request` never names a block that is outstanding. -/
-theorem C11_request_no_dup_partial (p0 : Peer) (ops : List PeerOut.Op) (hg : 16384 ≤ p0.ps.toNat) :
-    ∀ e, e ∈ trace p0 ops → Requests.RInv e.pre.requests →
-      (∀ r, r ∈ e.pre.requests.queue ++ e.pre.requests.requested → r.index < 4294967296) →
-      ∀ i b l, e.msg = .request i b l →
+/-- **C11_request_no_dup.**  A `Request` never names a block for which a request is
+    outstanding: in the state it is sent in, no entry of `requested` maps (by the same
+    arithmetic) to the same `(index, begin)`.  The chunk numbers of the model are Go `uint32`
+    values (`< 2^32`: hypotheses on the initial structure and on the scheduler's commands). -/
+theorem C11_request_no_dup (p0 : Peer) (ops : List PeerOut.Op) (hg : 16384 ≤ p0.ps.toNat)
+    (hinv : Requests.RInv p0.requests)
+    (h0 : ∀ r, r ∈ p0.requests.queue ++ p0.requests.requested → r.index < 4294967296)
+    (hops : ∀ op, op ∈ ops → ∀ ch, ch ∈ op.chunks → ch < 4294967296) :
+    ∀ e, e ∈ trace p0 ops → ∀ i b l, e.msg = .request i b l →
       ∀ r, r ∈ e.pre.requests.requested → ∀ iu bu,
         fromChunk e.pre.ps (UInt32.ofNat r.index) = some (iu, bu) →
         ¬ (iu.toNat = i ∧ bu.toNat = b) := by
-  intro e he hinv h32 i b l hm r hr iu bu hf ⟨hi, hb⟩
-  obtain ⟨hps, _, hloc⟩ := trace_facts p0 ops e he
+  intro e he i b l hm r hr iu bu hf ⟨hi, hb⟩
+  obtain ⟨hsi, hloc⟩ := trace_ok (ps0 := p0.ps) (len0 := p0.length) (N := 4294967296) ops p0
+    ⟨rfl, rfl, fun r hr => h0 r (List.mem_append.2 (Or.inl hr)),
+      fun r hr => h0 r (List.mem_append.2 (Or.inr hr)), hinv⟩ hops e he
+  obtain ⟨hps, _, hqb, hrb, hri⟩ := hsi
   unfold EmLocal at hloc
   rw [hm] at hloc
   obtain ⟨_, _, _, q, rest, hqueue, iq, bq, hfq, hiq, hbq, _⟩ := hloc
   rw [hps] at hf hfq
   have hqr : q.index ≠ r.index := by
-    have hn := hinv.1
+    have hn := hri.1
     rw [hqueue] at hn
     simp only [Requests.idx, List.map_cons, List.cons_append, List.nodup_cons, List.mem_append,
       not_or] at hn
@@ -537,24 +555,35 @@ theorem C11_request_no_dup_partial (p0 : Peer) (ops : List PeerOut.Op) (hg : 163
   have hiu : iu = iq := UInt32.toNat_inj.1 (by rw [hi, hiq])
   have hbu : bu = bq := UInt32.toNat_inj.1 (by rw [hb, hbq])
   subst hiu hbu
-  exact hqr (fromChunk_inj hg
-    (h32 q (List.mem_append.2 (Or.inl (by rw [hqueue]; exact List.mem_cons_self))))
-    (h32 r (List.mem_append.2 (Or.inr hr))) hfq hf)
+  exact hqr (fromChunk_inj hg (hqb q (by rw [hqueue]; exact List.mem_cons_self)) (hrb r hr) hfq hf)
 
-/-- the invariant is established and kept by the operations `maybeRequest` and `PeerRequest`
-    use, and `EnqueueRequest` after `Dequeue` never panics -/
+/-- **C11_requests_inv.**  The representation invariant of `Requests` holds for the empty
+    structure and is kept by every operation (`Enqueue`, `Dequeue` — whose head is not
+    outstanding and after which `EnqueueRequest` never panics —, `del` in both modes,
+    `Cancel`, `Clear` in both modes, marking a request as `Expire` does, ageing); by
+    `trace_ok` it holds in every state a history reaches and in every state a message is
+    sent in (`trace_facts`). -/
 theorem C11_requests_inv :
     Requests.RInv {} ∧
     (∀ rs c, Requests.RInv rs → Requests.RInv (Requests.enqueue rs c).1) ∧
     (∀ rs rs1 q, Requests.RInv rs → Requests.dequeue rs = some (q, rs1) →
       Requests.RInv rs1 ∧ q.index ∉ Requests.idx rs.requested ∧
       ∃ rs2, Requests.enqueueRequest rs1 q = some rs2 ∧ Requests.RInv rs2) ∧
-    (∀ rs, Requests.RInv (Requests.clear rs true).1) := by
+    (∀ rs rs2 c ro q r, Requests.RInv rs → Requests.del rs c ro = some (rs2, q, r) →
+      Requests.RInv rs2) ∧
+    (∀ rs c, Requests.RInv rs → Requests.RInv (Requests.cancel rs c).1) ∧
+    (∀ rs both, Requests.RInv rs → Requests.RInv (Requests.clear rs both).1) ∧
+    (∀ rs d, Requests.RInv rs → Requests.RInv (Requests.age rs d)) := by
   refine ⟨Requests.RInv_empty, fun rs c h => Requests.RInv_enqueue h c, ?_,
-    Requests.RInv_clear_both⟩
-  intro rs rs1 q h hd
-  obtain ⟨h1, h2, h3⟩ := Requests.RInv_dequeue h hd
-  exact ⟨h1, h2, Requests.RInv_enqueueRequest h1 h3⟩
+    fun rs rs2 c ro q r h hd => (Requests.RInv_del h hd).1,
+    fun rs c h => (Requests.RInv_cancel h c).1, ?_, fun rs d h => Requests.RInv_age h d⟩
+  · intro rs rs1 q h hd
+    obtain ⟨h1, h2, h3⟩ := Requests.RInv_dequeue h hd
+    exact ⟨h1, h2, Requests.RInv_enqueueRequest h1 h3⟩
+  · intro rs both h
+    cases both
+    · exact Requests.RInv_clear_false h
+    · exact Requests.RInv_clear_both rs
 
 /-- the unrepaired `fromChunk` gives a wrong offset for chunk 2^18 with 48 KiB pieces -/
 def C11_request_wf_orig : Prop :=
@@ -573,6 +602,8 @@ example :
     (trace { ps := 32768, length := 100000, rbitmap := some [0xF0], unchoked := true }
       [.eRequest [0, 1, 6] (some 0), .eCancel 1, .eHave 2 true]).map (·.msg) =
       [.request 0 0 16384, .request 0 16384 16384, .cancel 0 16384 16384, .have 2] := by decide
+
+example : Requests.RInv ({} : Peer).requests := Requests.RInv_empty
 
 example : GeomOK 32768 100000 := ⟨by decide, by decide, by decide, by decide⟩
 
